@@ -543,6 +543,46 @@ func TestVerifDiscovReloadRace(t *testing.T) {
 			}
 		})
 	}
+	// the first subscriber of another prefix attaches while a reload is under way: whatever
+	// the interleaving, its prefix is watched afterwards - a later registration reaches it
+	vrt.Explore(vrt.Options{Name: "discov/new-prefix-vs-reload", Bound: bound, Budget: vrt.FairBudget(2), Prune: true}, func(r *vrt.Run) {
+		s := newDSys(r)
+		s.f.PutKV(full("k1"), "vA")
+		s.subscribe(false)
+		vrt.Settle()
+		var sub2 *discov.Subscriber
+		vrt.Go(func() { internal.VerifReconnect(dEndpoints, s.f) })
+		vrt.Go(func() {
+			var err error
+			sub2, err = discov.NewSubscriber(append([]string{}, dEndpoints...), dKey2)
+			if err != nil {
+				r.Failf("NewSubscriber: %v", err)
+			}
+		})
+		vrt.Settle()
+		if sub2 == nil {
+			return
+		}
+		s.f.PutKV(full("o1"), "vC")
+		s.f.PutKV(full("k3"), "vB")
+		for i := 0; i < 3 && s.f.Pending(); i++ {
+			s.f.Deliver()
+			vrt.Settle()
+		}
+		for i, x := range []struct {
+			sub  *discov.Subscriber
+			want string
+		}{{s.subs[0].s, "[vA vB]"}, {sub2, "[vC]"}} {
+			got := append([]string{}, x.sub.Values()...)
+			sort.Strings(got)
+			if i == 1 {
+				r.Outcome("%v", got)
+			}
+			if fmt.Sprint(got) != x.want {
+				r.Failf("after the reload and the later registrations subscriber %d lists %v, the live values under its prefix are %s", i, got, x.want)
+			}
+		}
+	})
 	for _, withDisconnect := range []bool{false, true} {
 		withDisconnect := withDisconnect
 		vrt.Explore(vrt.Options{Name: fmt.Sprintf("discov/reload-vs-event/disconnect=%v", withDisconnect), Bound: bound, Budget: vrt.FairBudget(2)}, func(r *vrt.Run) {
